@@ -7,6 +7,7 @@ package main
 // run, equal to the Lean model), then lets a fresh child resume to the tip and compares again.
 
 import (
+	"database/sql"
 	"sync"
 	"encoding/json"
 	"flag"
@@ -24,6 +25,7 @@ func childSync(args []string) {
 	chainPath := fs.String("chain", "", "")
 	dir := fs.String("dir", "", "")
 	killAt := fs.Int("killat", 0, "")
+	killCommit := fs.Int("killcommit", 0, "")
 	failAt := fs.Int("failat", 0, "")
 	upto := fs.Uint("upto", 0, "")
 	stmtLog := fs.String("stmtlog", "", "")
@@ -46,6 +48,7 @@ func childSync(args []string) {
 	fake.SetTip(uint32(d.N.Sync.Synced))
 	Wrap.Record = *stmtLog != ""
 	Wrap.KillAt = *killAt
+	Wrap.KillCommit = *killCommit
 	Wrap.KillFile = filepath.Join(*dir, "killed-at")
 	if *failAt > 0 {
 		Wrap.FailAt[*failAt] = true
@@ -341,9 +344,97 @@ func scenCrash(rep *Report, tier string, seed int64) {
 		}()
 	}
 	wg.Wait()
+	crashBigLedger(rep, ref, dir, seed, s)
 	rep.Distribution["statements_in_reference_run"] = ref.Total
 	rep.Distribution["block_transactions"] = len(spans)
 	rep.Rule = "one evaluation = one real SIGKILL of a child daemon right before a numbered SQL statement (BEGIN, each statement of the block, COMMIT, right after COMMIT), followed by re-opening the file, comparing with the reference ledger of the recorded height and resuming to the tip; distinct = distinct (statement kind, call site in /repo)"
+}
+
+// crashBigLedger: a kill inside a block whose writes exceed SQLite's page cache (the snapshot
+// block of a ledger with tens of thousands of holders copies the whole balance table and pays
+// every holder), so that pages of the open transaction have reached the database file before
+// COMMIT. The storage configuration is the daemon's own (OpenDaemon mirrors it).
+func crashBigLedger(rep *Report, ref *refRun, dir string, seed int64, s Setup) {
+	snap := uint32(144)
+	cdir, _ := ioutil.TempDir(dir, "big")
+	defer os.RemoveAll(cdir)
+	if code, out := runChild("child-sync", "-chain", ref.ChainFn, "-dir", cdir, "-upto", fmt.Sprint(snap-1)); code != 0 {
+		rep.Note("infrastructure: big-ledger crash: cannot sync to %d: %.200s", snap-1, out)
+		return
+	}
+	dbPath := filepath.Join(cdir, "sql.db.v4")
+	db, err := sql.Open("sqlite3", dbPath)
+	if err != nil {
+		rep.Note("infrastructure: %v", err)
+		return
+	}
+	holders := 40000
+	tx, _ := db.Begin()
+	r := rand.New(rand.NewSource(seed*7919 + 424243))
+	for i := 0; i < holders; i++ {
+		var a [32]byte
+		r.Read(a[:])
+		if _, err := tx.Exec(`INSERT INTO pn_addresses (address, pusd_balance, peur_balance, pxbt_balance) VALUES (?, ?, ?, ?)`, a[:], 1000+i, 7*i, i%13); err != nil {
+			tx.Rollback()
+			db.Close()
+			rep.Note("infrastructure: big-ledger crash: %v", err)
+			return
+		}
+	}
+	// the previous snapshot holds the same rows, so that every one of them is a staker
+	if err := tx.Commit(); err != nil {
+		db.Close()
+		rep.Note("infrastructure: %v", err)
+		return
+	}
+	db.Exec(`INSERT INTO snapshot_current SELECT * FROM pn_addresses WHERE id NOT IN (SELECT id FROM snapshot_current)`)
+	db.Close()
+	before, err := DumpDB(dbPath)
+	if err != nil {
+		rep.Note("infrastructure: %v", err)
+		return
+	}
+	code, out := runChild("child-sync", "-chain", ref.ChainFn, "-dir", cdir, "-killcommit", "1", "-upto", fmt.Sprint(snap))
+	rep.Case("big-ledger|kill-before-commit-of-snapshot-block", true)
+	rep.Count("kill:big-ledger-commit")
+	if code == 0 {
+		rep.Note("big-ledger crash: the child finished without reaching the kill point: %.200s", out)
+		return
+	}
+	// re-open the file the way a restarting daemon does (read-write: SQLite rolls a hot journal
+	// back on the first access) and check its integrity
+	what := ""
+	if rw, err := sql.Open("sqlite3", "file:"+dbPath+"?_busy_timeout=10000"); err == nil {
+		var res string
+		if err := rw.QueryRow("PRAGMA integrity_check").Scan(&res); err != nil {
+			what = "integrity_check: " + err.Error()
+		} else if res != "ok" {
+			what = "integrity_check: " + res
+		}
+		rw.Close()
+	}
+	if what == "" {
+		if k := CommittedSynced(dbPath); k != int64(snap-1) {
+			what = fmt.Sprintf("recorded sync height %d, expected %d", k, snap-1)
+		}
+	}
+	if what == "" {
+		after, err := DumpDB(dbPath)
+		if err != nil {
+			what = "database unreadable: " + err.Error()
+		} else if diff := FirstDiff(dropBackfill(after), dropBackfill(before)); diff != "" {
+			what = "ledger differs from the one before the block: " + diff
+		}
+	}
+	if what != "" {
+		if len(what) > 400 {
+			what = what[:400]
+		}
+		path := WriteReplay(rep.Property, "crash-big-ledger", Replay{Property: rep.Property, Scenario: "crash", Seed: seed, Setup: s,
+			What:   fmt.Sprintf("SIGKILL right before COMMIT of the snapshot block %d on a ledger with %d holders: after re-opening, the database is not the ledger of height %d", snap, holders, snap-1),
+			Detail: []string{what}, Blocks: ChainJSON(ref.Chain)})
+		rep.Violate("crash:partial:big-ledger-commit", what, path)
+	}
 }
 
 // dropBackfill removes the version rows CheckHardForks writes at start-up (version -1 at fork
